@@ -19,6 +19,7 @@ case = (max_retries, mode, jobs)
 `faulty` keeps the attempt log (call number, outcome of every nested operation, elements pulled from
 upstream, how the attempt ended).  The implementation result is, per job, (result, logs): result =
 (0, value) or (1, exception_class, exception_args); logs = one list of attempt records per partition."""
+import atexit
 import glob
 import itertools
 import json
@@ -29,7 +30,7 @@ import threading
 from concurrent.futures import ThreadPoolExecutor
 
 import pysparkling
-from common.coqlit import Err, uncanon
+from common.coqlit import Err, canon, uncanon
 from pysparkling.exceptions import ContextIsLockedException
 
 ID = 'C04'
@@ -50,6 +51,8 @@ RULE = ('cases (max_retries, executor, job sequence on one context); every job h
         'stages with per-task state directly under the action (seeded sample/sampleByKey, zipWithUniqueId, '
         'zipWithIndex, counting mapPartitionsWithIndex, with a map(identity) control) over a transient upstream fault: '
         'exact equality with the fault-free run of the same seeded pipeline (oracle only); '
+        'contexts whose public max_retries is assigned after construction (before the first job / between jobs, every '
+        'ordered pair of 1..4, local and thread pool) with failing-attempt counts between the two budgets (oracle only); '
         'exhaustive over the number of failing attempts per partition for <=3 partitions and max_retries 1..4 on three '
         'executors; non-trivial = some attempt fails or some nested operation is attempted; distinct by canonical JSON')
 ASSUMPTIONS = [
@@ -192,9 +195,16 @@ ADD = lambda a, b: a + b  # noqa: E731  pylint: disable=unnecessary-lambda-assig
 K3 = lambda x: x % 3      # noqa: E731  pylint: disable=unnecessary-lambda-assignment
 
 
+_SAVE_DIRS = []
+atexit.register(lambda: [shutil.rmtree(d, ignore_errors=True) for d in _SAVE_DIRS])
+
+
 def _save_text(rdd):
     d = tempfile.mkdtemp(prefix='c04_save_', dir=os.environ.get('C04_TMP'))
-    try:
+    # removed at exit, not here: when the job fails on a pool, tasks of other partitions may still be writing
+    # (deleting the directory under them would make them fail and be retried)
+    _SAVE_DIRS.append(d)
+    if True:
         out = os.path.join(d, 'out')
         rdd.saveAsTextFile(out)
         lines = []
@@ -204,8 +214,6 @@ def _save_text(rdd):
             with open(name) as f:
                 lines.extend(int(l) for l in f.read().splitlines() if l)
         return sorted(lines)
-    finally:
-        shutil.rmtree(d, ignore_errors=True)
 
 
 def _strip_tail(res, tail):
@@ -1072,6 +1080,7 @@ def extra_checks(rng, tier, workdir):
                 yield ('process-pool:' + o[0], o[1], repr(result)[:600], case)
     yield from user_function_checks(rng, tier)
     yield from stateful_stage_checks(rng, tier)
+    yield from reconfigured_budget_checks(rng, tier)
 
 
 # ------------------------------------------------------------------ faults raised by the user's own function (oracle only)
@@ -1307,8 +1316,63 @@ def stateful_stage_checks(rng, tier):
         pool.shutdown(wait=True)
 
 
+# ------------------------------------------------------------------ max_retries changed after construction (oracle only)
+
+RC_STATS = {'reconfigured_budget_runs': 0}
+
+
+def reconfigured_budget_checks(rng, tier):
+    """Context(max_retries=c); then sc.max_retries = n (before the first job, or between two jobs); a partition
+    whose number of failing attempts lies between the two budgets.  'The configured number of attempts' is the
+    value of the public attribute when the job starts: the job is judged by the oracle with that value."""
+    del tier        # the whole product in both tiers
+    for c in (1, 2, 3, 4):
+        for n in (1, 2, 3, 4):
+            if n == c:
+                continue
+            for when in ('before the first job', 'between two jobs'):
+                for mode in (0, 1):
+                    for f in range(max(0, min(c, n) - 1), max(c, n) + 1):
+                        pool = ThreadPoolExecutor(8) if mode else None
+                        sc = pysparkling.Context(pool=pool, max_retries=c) if pool else pysparkling.Context(max_retries=c)
+                        steps = []      # (budget in force, job)
+                        if when == 'between two jobs':
+                            g = rng.randint(0, c)       # the first job runs under the constructor's value
+                            parts0 = [(gen_data(rng, 2), [gen_fault(rng) for _ in range(g)], [])]
+                            steps.append((c, fix_job(rng, c, mode, (rng.choice(STRICT), rng.randrange(2), [], [], parts0, 0))))
+                        parts = [(gen_data(rng, rng.randint(1, 3)), [], []),
+                                 (gen_data(rng, rng.randint(2, 3)), [gen_fault(rng) for _ in range(f)], [])]
+                        if rng.random() < 0.5:
+                            parts.reverse()
+                        steps.append((n, fix_job(rng, n, mode, (rng.choice(STRICT), rng.randrange(2), [], gen_ops(rng, True)[:1], parts, 0))))
+                        steps.append((n, simple_job(rng)))
+                        ran = []
+                        try:
+                            for jidx, (budget, job) in enumerate(steps):
+                                if sc.max_retries != budget:
+                                    sc.max_retries = budget
+                                res, ds = run_job(sc, budget, mode, jidx, job, None)
+                                ran.append((budget, job, res, ds))
+                        finally:
+                            if pool:
+                                pool.shutdown(wait=True)
+                        RC_STATS['reconfigured_budget_runs'] += 1
+                        case = {'constructor max_retries': c, 'assigned max_retries': n, 'assigned': when,
+                                'executor': ['local', 'thread pool'][mode], 'failing attempts': f,
+                                'jobs': [canon(j) for _b, j, _r, _d in ran]}
+                        for jidx, (budget, job, res, ds) in enumerate(ran):
+                            ctx = dict(resolve([job])[0], origin=jidx, maybe_cached=[False] * len(job[4]))
+                            logs = [[(r[0], list(r[1]), list(r[2]), SUSPENDED if r[3] is None else r[3]) for r in l] for l in ds.log]
+                            o = oracle_job(budget, mode, job[0], ctx, [0] * len(job[4]), res, logs)
+                            if o is not None:
+                                yield ('reconfigured-budget:' + o[0],
+                                       f'Context(max_retries={c}), sc.max_retries = {n} {when}; job {jidx} runs with max_retries={budget}',
+                                       o[1], case)
+                                break
+
+
 def extra_evidence():
-    return dict(PROC_STATS, **FN_STATS, **ST_STATS, exception_classes=len(EXC), actions=len(ACTIONS), nested_operation_kinds=len(NEST_OPS), lineage_ops=len(OPS))
+    return dict(PROC_STATS, **FN_STATS, **ST_STATS, **RC_STATS, exception_classes=len(EXC), actions=len(ACTIONS), nested_operation_kinds=len(NEST_OPS), lineage_ops=len(OPS))
 
 
 # ------------------------------------------------------------------ shrinking
